@@ -126,6 +126,13 @@ def run(tier: str, seed: int, rep: Report, model: Model) -> dict:
     ex = ["".join(t) for n in range(0, L + 1) for t in itertools.product(G.TOKEN_ALPHABET, repeat=n)]
     rep.streams[f"exhaustive_alphabet_len<={L}"] = len(ex)
     strings += ex
+    # longer strings over a reduced alphabet (operand, literal, operator, brackets, comma, a unary and a binary function):
+    # malformed strings that need nesting (a bare function name closing a group, an argument list after a group, ...)
+    R = ["a", "1", "+", "(", ")", ",", "isqrt", "min"]
+    LR = 5 if tier == "quick" else 6
+    exr = ["".join(t) for n in range(L + 1, LR + 1) for t in itertools.product(R, repeat=n)]
+    rep.streams[f"exhaustive_reduced_alphabet_len<={LR}"] = len(exr)
+    strings += exr
     muts = []
     for _ in range(n_mut):
         r = rnd.random()
